@@ -22,8 +22,39 @@ BOUNDS = {
 }
 
 
+_cached = [None]
+
+
+def _reset_cached():
+    _cached[0] = None
+
+
+runner.TASK_INIT.append(_reset_cached)
+
+
+def cached_check(res, v):
+    """The same text on a parser WITH a parse cache (shared by all texts of the task) must give the same verdict."""
+    import copy
+    from ..core import real as realmod
+    if _cached[0] is None:
+        e1.get_real()
+        p = copy.deepcopy(e1._template)
+        p.parse_cache = {}
+        _cached[0] = realmod.Real(p)
+    Rc = _cached[0]
+    if len(Rc.parser.parse_cache) > 4000:
+        Rc.parser.parse_cache.clear()
+    r = Rc.parse(v.text)
+    res.count('cached_parses')
+    if (r[0] == 'ok') != (v.rk == 'ok') or (r[0] == 'ok' and r[1] != v.r[1]):
+        res.violation('parse-cache-changes-verdict:' + e1.context_types(v.text, None, 3),
+                      'with a parse cache the same text is accepted / rejected / parsed differently',
+                      {'text': v.text, 'expected': repr(v.r[:2])[:300], 'observed': repr(r[:2])[:300]})
+
+
 def visit(res, v, symbols):
     e1.compare_parse(res, v, ID, 'token string')
+    cached_check(res, v)
     if v.mk == 'ok':
         res.state(v.text)
         if len(symbols) >= 4:
@@ -92,6 +123,7 @@ def work(task):
                 res.count('strings')
                 res.count('sentence_texts')
                 e1.compare_parse(res, v, ID, 'sentence')
+                cached_check(res, v)
                 if par == full and tree[0] not in ('setitem', 'setop', 'del') and 'ungrammatical' not in repr(want):
                     # model self-check: the fully parenthesised rendering gives back the tree
                     if v.mk != 'ok' or v.m[1] != ('code', [want]):
